@@ -160,7 +160,10 @@ func corrPhase(rep *report, seed uint64, histories int, casesPath string) {
 	defer bw.Flush()
 	for h := 0; h < histories; h++ {
 		r := newRng(seed ^ (uint64(h+1) * 0xA24BAED4963EE407))
-		line, stats := corrHistory(rep, r, h)
+		line, stats, diffAt := corrHistory(rep, r, h, 0)
+		if diffAt > 0 {
+			corrHistory(rep, newRng(seed^(uint64(h+1)*0xA24BAED4963EE407)), h, diffAt)
+		}
 		bw.WriteString(line)
 		bw.WriteByte('\n')
 		rep.counters["corr_histories"]++
@@ -180,7 +183,11 @@ func corrPhase(rep *report, seed uint64, histories int, casesPath string) {
 	}
 }
 
-func corrHistory(rep *report, r *rng, hidx int) (string, [3]int) {
+// probe > 0: the probe-th read-only operation of the history is snapshotted in lines mode (second
+// pass, to name the written field).  Returns the index of the first read-only operation whose
+// snapshot hash changed (0 = none).
+func corrHistory(rep *report, r *rng, hidx int, probe int) (string, [3]int, int) {
+	roCount, firstDiffRO := 0, 0
 	c := &cworld{sigID: map[acmelib.EntityID]int{}, valH: map[acmelib.EntityID]int{}, attrH: map[acmelib.EntityID]int{},
 		nodeH: map[acmelib.EntityID]int{}, msgH: map[acmelib.EntityID]int{}, nextSig: 1, nextVal: 1, nextMsg: 1}
 	for a := 0; a < 4; a++ {
@@ -196,11 +203,25 @@ func corrHistory(rep *report, r *rng, hidx int) (string, [3]int) {
 	}
 	snapRO := func(tok string, f func() []int) {
 		roots := c.roots()
-		before := snapshotLines(roots)
-		res := f()
-		after := snapshotLines(roots)
-		if d := diffLines(before, after); d != "" {
-			rep.fail("snapshot-write:"+changedField(before, after), fmt.Sprintf("history %d: read-only op %s wrote shared state: %s", hidx, tok, d))
+		roCount++
+		var res []int
+		if roCount == probe {
+			// second pass over the same history: name the field this operation writes
+			before := snapshotLines(roots)
+			res = f()
+			after := snapshotLines(roots)
+			if d := diffLines(before, after); d != "" {
+				rep.fail("snapshot-write:"+changedField(before, after), fmt.Sprintf("history %d: read-only op %s wrote shared state: %s", hidx, tok, d))
+			} else {
+				rep.fail("snapshot-write:unreproduced", fmt.Sprintf("history %d: read-only op %s changed the object graph (not reproduced on the second pass)", hidx, tok))
+			}
+		} else {
+			h0, _ := snapshotHash(roots)
+			res = f()
+			h1, _ := snapshotHash(roots)
+			if h0 != h1 && firstDiffRO == 0 {
+				firstDiffRO = roCount
+			}
 		}
 		if len(res) > 0 && res[0] == -1 {
 			stats[2]++
@@ -500,7 +521,7 @@ func corrHistory(rep *report, r *rng, hidx int) (string, [3]int) {
 			return c.enumErr(e, err)
 		})
 	}
-	return strings.Join(toks, " "), stats
+	return strings.Join(toks, " "), stats, firstDiffRO
 }
 
 func (c *cworld) readOp(r *rng, snapRO func(string, func() []int)) {
